@@ -19,32 +19,6 @@ const (
 
 var c03Methods = []string{"DELETE", "GET", "HEAD", "OPTIONS", "PATCH", "POST", "PUT"}
 
-// c03ChildIndex decomposes v = load of n.children[c] (c constant) and returns c.
-func c03ChildIndex(v ssa.Value) (int64, bool) {
-	v = core.Forward(v)
-	var idx ssa.Value
-	var base ssa.Value
-	switch x := v.(type) {
-	case *ssa.UnOp:
-		if x.Op != token.MUL {
-			return 0, false
-		}
-		ia, ok := x.X.(*ssa.IndexAddr)
-		if !ok {
-			return 0, false
-		}
-		idx, base = ia.Index, ia.X
-	case *ssa.Index:
-		idx, base = x.Index, x.X
-	default:
-		return 0, false
-	}
-	if core.FieldAddrName(base) != "node.children" && core.FieldAddrNameOfLoad(base) != "node.children" {
-		return 0, false
-	}
-	return core.ConstInt(idx)
-}
-
 // c03TouchesChildren reports whether f mentions the field node.children.
 func c03TouchesChildren(f *ssa.Function) []ssa.Instruction {
 	return core.Instrs(f, func(in ssa.Instruction) bool {
@@ -322,41 +296,37 @@ func c03(r *core.Run) {
 			if !o.Need(seg != nil, "segment parameter of "+core.FuncName(f)) {
 				return
 			}
-			retIdx := func(want int64) func(ssa.Instruction) bool {
-				return func(in ssa.Instruction) bool {
-					ret, ok := in.(*ssa.Return)
-					if !ok {
-						return false
-					}
-					i, ok := c03ChildIndex(core.Result(ret, 0))
-					return ok && i == want
-				}
+			// outcomes (c03_selector.go): a return of n.children[c], or of n.children[k] / of a map m where k / m is
+			// a φ — then every constant (every load) flowing into the φ is one outcome, entered through its φ-edge
+			var outs []c03Outcome
+			for _, ret := range core.Returns(f) {
+				outs = append(outs, c03SelectorOutcomes(ret)...)
 			}
 			n0, n1 := 0, 0
-			for _, ret := range core.Returns(f) {
-				i, ok := c03ChildIndex(core.Result(ret, 0))
+			for _, oc := range outs {
 				switch {
-				case !ok:
-					o.Unres("%s returns %s: not a constant slot of node.children", core.FuncName(f), core.Describe(core.Result(ret, 0)))
-				case i == 0:
+				case !oc.ok:
+					o.Unres("%s returns %s: not a constant slot of node.children", core.FuncName(f), oc.desc)
+				case oc.slot == 0:
 					n0++
-				case i == 1:
+				case oc.slot == 1:
 					n1++
 				default:
-					o.Fail(p.InstrPos(ret), "slot %d does not exist", i)
+					o.Fail(p.InstrPos(oc.ret), "slot %d does not exist", oc.slot)
 				}
 			}
 			o.Site(n0+n1, core.FuncName(f))
 			if n0 == 0 || n1 == 0 {
 				o.Fail(p.Pos(f.Pos()), "%s never returns slot %d", core.FuncName(f), map[bool]int{true: 0, false: 1}[n0 == 0])
 			}
-			colon := colonAtom(seg)
-			if w := core.Requires(f, retIdx(1), colon); w != nil {
-				o.Fail(p.InstrPos(w), "the parameter slot children[1] is returned for a segment that does not start with ':' (literals would be visited after parameters)")
-			}
-			hold, _ := core.EdgesOf(f, colon)
-			if w := core.ReachableFromEdges(hold, retIdx(0), nil); w != nil {
-				o.Fail(p.InstrPos(w), "the literal slot children[0] is returned for a ':'-prefixed segment (parameters would be visited before literals)")
+			hold, _ := core.EdgesOf(f, colonAtom(seg))
+			for _, oc := range outs {
+				if oc.ok && oc.slot == 1 && !c03OutcomeNeeds(f, oc, hold) {
+					o.Fail(p.InstrPos(oc.ret), "the parameter slot children[1] is returned for a segment that does not start with ':' (literals would be visited after parameters)")
+				}
+				if oc.ok && oc.slot == 0 && c03OutcomeAfter(oc, hold) {
+					o.Fail(p.InstrPos(oc.ret), "the literal slot children[0] is returned for a ':'-prefixed segment (parameters would be visited before literals)")
+				}
 			}
 		}
 	})
